@@ -27,7 +27,7 @@ ASSUMPTIONS = ["fewer than 2^15 messages are submitted per direction (exactly-on
 
 
 def route(case):
-    return "disp" if case.startswith(("disp", "sccrq")) else "chan"
+    return "disp" if case.startswith(("disp", "sccrq", "full")) else "chan"
 
 
 ORIGINS = [0, 0, 1, 0x7ffd, 0x7ffe, 0x7fff, 0x8000, 0x8001, 0xfffc, 0xfffd, 0xfffe, 0xffff]
@@ -155,6 +155,49 @@ def gen_disp(rng, n):
     return out
 
 
+MTYPES = ["sccrq", "sccrp", "scccn", "stop", "hello", "icrq", "icrp", "iccn", "cdn", "unk", "zlb"]
+
+
+def gen_full(rng, n):
+    """Real Component.Dispatch: every control message type, first-time and retransmitted (same Ns again after
+    the handler ran, also after it deleted the session / the tunnel), unknown session ids and tunnel ids."""
+    out = []
+
+    def build(role, plan):
+        # plan: list of (type, tid, sid, mode) with mode c = in order, p = retransmission of the previous
+        # accepted message, f = one ahead; Ns literals are computed with the in-order rule
+        nr, alive, ops = 0, True, []
+        for ty, tid, sid, mode in plan:
+            ns = {"c": nr, "p": (nr - 1) % 65536, "f": (nr + 1) % 65536}[mode]
+            ops.append("%s:%d:%d:%d:%s" % (ty, tid, sid, ns, "a"))
+            if alive and tid == 7 and ty not in ("zlb", "sccrq") and mode == "c":
+                nr = (nr + 1) % 65536
+                if ty == "stop":
+                    alive = False
+        return "full %s %s" % (role, " ".join(ops))
+    # systematic: each type x {existing session, unknown session, no session} first-time then retransmitted twice
+    for role in ("lns", "lac"):
+        for ty in MTYPES:
+            for sid in (5, 6, 0):
+                out.append(build(role, [("hello", 7, 0, "c"), (ty, 7, sid, "c"), (ty, 7, sid, "p"), (ty, 7, sid, "p"),
+                                        ("hello", 7, 0, "c"), (ty, 7, sid, "c"), (ty, 7, sid, "p")]))
+                out.append(build(role, [(ty, 8, sid, "c"), (ty, 7, sid, "f"), (ty, 7, sid, "c"), (ty, 8, sid, "p"),
+                                        (ty, 7, sid, "p")]))
+        # session created by ICRQ (local id 1), used, torn down, and every later message retransmitted
+        out.append(build(role, [("icrq", 7, 0, "c"), ("icrq", 7, 0, "p"), ("iccn", 7, 1, "c"), ("iccn", 7, 1, "p"),
+                                ("cdn", 7, 1, "c"), ("cdn", 7, 1, "p"), ("cdn", 7, 1, "p"), ("iccn", 7, 1, "c"),
+                                ("icrp", 7, 1, "c"), ("stop", 7, 0, "c"), ("stop", 7, 0, "p"), ("hello", 7, 0, "c")]))
+    for _ in range(n):
+        plan = []
+        for _ in range(rng.randrange(2, 14)):
+            ty = rng.choice(MTYPES)
+            if ty == "stop" and rng.random() < 0.6:
+                ty = "cdn"
+            plan.append((ty, rng.choice([7, 7, 7, 7, 8]), rng.choice([5, 5, 1, 6, 0]), rng.choice("cccppf")))
+        out.append(build(rng.choice(["lns", "lac"]), plan))
+    return out
+
+
 def gen_cases(rng, tier, budget):
     cases = []
     quick = tier == "quick"
@@ -165,6 +208,7 @@ def gen_cases(rng, tier, budget):
     for _ in range(200 if quick else 5000):
         cases.append("seqless %d %d" % (rng.randrange(65536), rng.randrange(65536)))
     cases += gen_disp(rng, 150 if quick else 2000)
+    cases += gen_full(rng, 150 if quick else 2000)
     for ns in [0, 1, 2, 0x7fff, 0x8000, 0xffff]:
         for nr in [0, 1, 0x8000]:
             cases.append("sccrq %d %d" % (ns, nr))
@@ -208,6 +252,8 @@ def monitor(case, line):
     """The property evaluated on an observed trace: None or text of the violation."""
     if case.startswith("disp"):
         return monitor_disp(case, line)
+    if case.startswith("full"):
+        return monitor_full(case, line)
     if not case.startswith("pair"):
         return None
     c = parse_pair(case)
@@ -266,6 +312,22 @@ def monitor(case, line):
             if int(i) >= len(d):
                 return "%s treats its message #%s (%s) as acknowledged but it was never handed to %s's protocol machine" % (
                     snd, i, sub[snd][int(i)] if int(i) < len(sub[snd]) else "?", rcv)
+    return None
+
+
+def monitor_full(case, line):
+    """Every non-ZLB message for a registered tunnel must be acknowledged (first time and retransmitted)."""
+    ops = case.split()[2:]
+    toks = line.split()
+    if len(toks) != len(ops) + 1:
+        return None
+    for i, (op, tok) in enumerate(zip(ops, toks)):
+        if tok.endswith(":A0"):
+            a = op.split(":")
+            again = any(o.split(":")[:4] == a[:4] for o in ops[:i])
+            return "%s message %s (tunnel 7, session %s, Ns %s) reached Dispatch for a registered tunnel but is never acknowledged: %s" % (
+                "retransmitted" if again else "first-time", a[0], a[2], a[3],
+                "no packet carries the current Nr and no ZLB is scheduled (the receive step was skipped)")
     return None
 
 
@@ -354,6 +416,8 @@ def nontrivial(case, out):
     toks, kv = split_line(out)
     if case.startswith("disp"):
         return any(t.startswith("D1") for t in toks)
+    if case.startswith("full"):
+        return any(t.endswith(":A1") for t in toks)
     if not kv:
         return False
     if not (kv.get("delA") or kv.get("delB")):
@@ -368,6 +432,8 @@ def shrink(case):
     if t[0] == "pair":
         head, ops = t[:13], t[13:]
     elif t[0] == "disp":
+        head, ops = t[:2], t[2:]
+    elif t[0] == "full":
         head, ops = t[:2], t[2:]
     else:
         return
